@@ -115,7 +115,7 @@ pub struct ExUtf8Error(std::str::Utf8Error);
 #[verifier::external_type_specification]
 #[verifier::external_body]
 pub struct ExParseIntError(std::num::ParseIntError);
-pub uninterp spec fn trim_spec(s: Seq<char>) -> Seq<char>;   // str::trim
+//@@ include str_prelude
 pub uninterp spec fn hex_spec(s: Seq<char>) -> Option<usize>;   // usize::from_str_radix(_, 16)
 pub uninterp spec fn utf8_ok(b: Seq<u8>) -> bool;
 pub uninterp spec fn utf8_chars(b: Seq<u8>) -> Seq<char>;
@@ -123,8 +123,6 @@ pub uninterp spec fn utf8_chars(b: Seq<u8>) -> Seq<char>;
 pub uninterp spec fn str_bytes(s: Seq<char>) -> Seq<u8>;
 pub assume_specification<'a>[ core::str::from_utf8 ](v: &'a [u8]) -> (r: std::result::Result<&'a str, std::str::Utf8Error>)
     ensures r is Ok <==> utf8_ok(v@), r matches Ok(s) ==> s@ == utf8_chars(v@) && str_bytes(s@) == v@;
-pub assume_specification[ str::trim ](s: &str) -> (r: &str)
-    ensures r@ == trim_spec(s@);
 pub assume_specification[ usize::from_str_radix ](s: &str, radix: u32) -> (r: std::result::Result<usize, std::num::ParseIntError>)
     ensures radix == 16 ==> (match r { Ok(v) => hex_spec(s@) == Some(v), Err(_) => hex_spec(s@) is None });
 pub assume_specification<T, U, D: FnOnce() -> U, F: FnOnce(T) -> U>[ Option::<T>::map_or_else ](o: Option<T>, default: D, f: F) -> (r: U)
